@@ -41,10 +41,11 @@ for p in reg["properties"].values():
 status += "\nAssumptions that remain (also printed in every evidence file):\n\n" + "\n".join("* " + a for a in seen) + "\n"
 status += "\nVerus units and what verifies in each on the unchanged tree (obligations.baseline.json): " + "; ".join(
     "`%s` %d" % (u, len(v)) for u, v in base["verus"].items()) + ".\n"
-srows = ["| seeded change | breaks | what it needs to manifest | caught by | how |", "|---|---|---|---|---|"]
+srows = ["| seeded change | breaks | what it needs to manifest | caught by | how | history |", "|---|---|---|---|---|---|"]
 for mp in sorted(glob.glob("/verif/seeded/*/meta.json")):
     m = json.load(open(mp))
-    srows.append("| %s | %s | %s | %s | %s |" % (m["id"], m.get("property"), m.get("needs", "").replace("|", "/"), m.get("caught_by", "not caught"), m.get("how", "").replace("|", "/")))
+    srows.append("| %s | %s | %s | %s | %s | %s |" % (m["id"], m.get("property"), m.get("needs", "").replace("|", "/"), m.get("caught_by", "not caught"), m.get("how", "").replace("|", "/"),
+                 m.get("first_evaluation", "caught by the checks that existed when it was delivered")))
 seeded = "\n".join(srows)
 d = open("/verif/DESIGN.md").read()
 def put(tag, text):
